@@ -4,11 +4,10 @@
    HBegin/HStart/... mirror scheduler.go:258-300), Agent/Run.v.  Proofs: Sched/ProofsStop.v, Agent/RunProofs.v.
    Examples: Sched/Examples2.v.  Tie to the code: tools/props/C04.py (power-set trace validation of the real scheduler
    incl. stop requests at every visible event index, every subset of handlers).
-   Premises: donech c = true (Schedule is given a done channel, as the agent always does; WITHOUT one the statement
-   "finished means ran" is false in the model AND on the real scheduler - C04_done_nil_finished_means_ran_refuted below,
-   findings/C04-done-nil-finished-after-failure.json, candidate fix fixes/F-sched-done-nil-finished.diff), norepeat c
-   (no repeatPolicy step); C04_finished_iff / C04_failed_iff are stated for runs without DAG timeout (a timed-out run is labelled failed
-   by decision, DESIGN.md section 6; C05).  Node teardown (log flush) is modelled as infallible. *)
+   Premise: norepeat c (no repeatPolicy step).  Since fix 614b59e no premise about the done channel is needed (before it
+   "finished means ran" was false for Schedule called without one: C04_done_nil_repaired below,
+   findings/C04-done-nil-finished-after-failure.json); C04_finished_iff / C04_failed_iff are stated for runs without
+   DAG timeout (a timed-out run is labelled failed by decision, DESIGN.md section 6; C05).  Node teardown (log flush) is modelled as infallible. *)
 From Coq Require Import List.
 Import ListNotations.
 From BD.Agent Require Import Run RunProofs.
@@ -16,14 +15,14 @@ From BD.Sched Require Import Model Proofs ProofsFinal ProofsStop Replay Replay2 
 
 (* At the moment the handlers are chosen (loop left, every worker gone - pc = LExited), in every reachable state:
    the run is reported finished iff every step is finished or skipped; *)
-Theorem C04_finished_iff : forall c : cfg, donech c = true -> norepeat c ->
+Theorem C04_finished_iff : forall c : cfg, norepeat c ->
   forall s, Reach c s -> pc s = LExited -> timedout s = false ->
   (overall c s = OSuccess <-> is_succeed c s = true).
 Proof. exact overall_finished_iff. Qed.
 Print Assumptions C04_finished_iff.
 
 (* failed iff some step failed (or could not be set up) and the run was not "stopped before completing"; *)
-Theorem C04_failed_iff : forall c : cfg, donech c = true -> norepeat c ->
+Theorem C04_failed_iff : forall c : cfg, norepeat c ->
   forall s, Reach c s -> pc s = LExited -> timedout s = false ->
   (overall c s = OError <->
    (~ (canceled s = true /\ is_succeed c s = false) /\ exists i, i < nsteps c /\ st (nd s i) = NError)).
@@ -39,7 +38,7 @@ Print Assumptions C04_canceled_iff.
 
 (* "Finished" means completed - in EVERY reachable state, stopped run or not: a step reported finished did run and its
    last attempt succeeded.  (False before fix ac08004 - F5c.) *)
-Theorem C04_finished_means_ran : forall c : cfg, donech c = true -> norepeat c ->
+Theorem C04_finished_means_ran : forall c : cfg, norepeat c ->
   forall s, Reach c s -> dry c = false ->
   forall i, st (nd s i) = NSuccess -> exists fs, outs (nd s i) = true :: fs.
 Proof. exact finished_means_ran. Qed.
@@ -49,7 +48,7 @@ Print Assumptions C04_finished_means_ran.
    requests, with or without timeout: no handler starts before HBegin; after HBegin no label of the scheduling loop or
    of a step worker occurs (every step has ended: at HBegin every worker is gone); and the handlers started are, in
    this order and each once, exactly the configured ones among [handler of the outcome at HBegin; onExit] - onExit last. *)
-Theorem C04_handlers : forall c : cfg, donech c = true -> norepeat c ->
+Theorem C04_handlers : forall c : cfg, norepeat c ->
   forall ls1 ls2 s1 s2 s3,
   run c (init c) ls1 = Some s1 -> step c s1 HBegin = Some s2 -> run c s2 ls2 = Some s3 ->
   pc s3 = LDone -> dry c = false ->
@@ -65,7 +64,7 @@ Print Assumptions C04_handlers_for_outcome.
 
 (* The outcome reported once the run is over (what the agent persists) is the outcome the handlers ran for - whatever
    arrives in between, a stop request included.  (False before fix 08917f8 - F4a.) *)
-Theorem C04_outcome_stable : forall c : cfg, donech c = true -> norepeat c ->
+Theorem C04_outcome_stable : forall c : cfg, norepeat c ->
   forall ls1 ls2 s1 s2 s3,
   run c (init c) ls1 = Some s1 -> step c s1 HBegin = Some s2 -> run c s2 ls2 = Some s3 ->
   overall c s3 = overall c s1.
@@ -117,13 +116,12 @@ Example C04_committed_step_canceled_repaired :
     overall (one_step 1 false) s = OCancel /\ hstarts f5c_exec = [HCancel; HExit].
 Proof. exact f5c_repaired. Qed.
 
-(* (4) Why donech c = true is a premise: Schedule called without a done channel; the command fails on its own after the
-   stop flag is set and before the Signal pass reaches its node; the worker records the error and falls through to the
-   final relabelling running -> finished.  The step is reported finished although its only attempt failed - the
-   conclusion of C04_finished_means_ran is false in this reachable state.  Reproduced on the real scheduler (stream
-   `failinstop` of the driver; known finding C04-done-nil-finished-after-failure). *)
-Example C04_done_nil_finished_means_ran_refuted :
+(* (4) The done == nil scenario in the repaired model (fix 614b59e): Schedule called without a done channel; the command
+   fails on its own after the stop flag is set and before the Signal pass reaches its node; the node is labelled
+   canceled, the run canceled.  (Before the fix the step was reported finished although its only attempt had failed -
+   reproduced on the real scheduler, findings/C04-done-nil-finished-after-failure.json.) *)
+Example C04_done_nil_repaired :
   donech one_step_nodone = false /\ norepeat one_step_nodone /\ dry one_step_nodone = false /\
   exists s, Reach one_step_nodone s /\ canceled s = true /\ lasterr s = true /\ sigq s = [] /\
-    st (nd s 0) = NSuccess /\ outs (nd s 0) = [false].
-Proof. exact done_nil_finished_after_failure. Qed.
+    st (nd s 0) = NCancel /\ outs (nd s 0) = [false] /\ overall one_step_nodone s = OCancel.
+Proof. exact done_nil_repaired. Qed.
